@@ -18,7 +18,7 @@ from sim.vclock import UTYPE_DIR
 ID = "C20"
 RULE = ("plan = (scenario W1 pending module-level forward refs / W2 function-local self-referencing classes / W3 conversions "
         "racing registrations / W4 concurrent decoration + first calls / W5 warmed steady state, world parameters, 2-3 threads "
-        "x 1-3 operations, schedule policy uniform/targeted/quantum/pct/sequential with its private seed); non-trivial = >=1 "
+        "x 1-3 operations, schedule policy uniform/targeted/quantum/pct/anchor-pct/sequential with its private seed); non-trivial = >=1 "
         "pre-emptive switch while >=2 threads are in the middle of an operation and one of them is inside an anchor function "
         "(resolve_forward_refs, apply_for, TypeRegistry.register/resolve, ...); distinct by hash of the switch-location sequence")
 ASSUMPTIONS = [
@@ -313,8 +313,10 @@ def generate(rng, tier):
         pol = {"kind": "targeted", "p_in": rng.choice([0.3, 0.5, 0.7]), "p_out": rng.choice([0.0, 0.002, 0.01]), "seed": pseed}
     elif r < 0.75:
         pol = {"kind": "quantum", "q": rng.choice([1, 2, 3, 7, 20, 100]), "seed": pseed}
-    elif r < 0.95:
+    elif r < 0.85:
         pol = {"kind": "pct", "d": rng.choice([1, 2, 3]) if tier == "quick" else rng.choice([2, 3, 4, 6]), "seed": pseed}
+    elif r < 0.95:
+        pol = {"kind": "apct", "d": rng.choice([2, 3, 4]), "est": rng.choice([60, 150, 400]), "seed": pseed}
     else:
         pol = {"kind": "sequential", "seed": pseed}
     plan["schedule"] = pol
@@ -371,6 +373,7 @@ def execute(plan):
     pol = dict(plan["schedule"])
     if pol["kind"] == "pct":
         pol.setdefault("est", 1500 * len(ops_all))
+    # (apct carries its own estimate of the number of anchor points)
     sched = Scheduler(pol, nth, budget=400_000, bytecode=bool(plan.get("bytecode")))
     programs = [[(lambda op=op: run_op(mod, op, plan["params"])) for op in ops] for ops in plan["threads"]]
     results = sched.run(programs)
